@@ -19,8 +19,11 @@ git -C /repo worktree remove --force $WT
 echo "demo unchanged: exit $BASE ; demo with patch: exit $MUT ; tests with patch: $TRES"
 mkdir -p /verif/seeded/$ID && cp $SRC/patch.diff $SRC/demo.py /verif/seeded/$ID/ && cp $SRC/notes.md /verif/seeded/$ID/notes.md 2>/dev/null
 git -C /repo apply $SRC/patch.diff || { echo "cannot apply to /repo"; exit 9; }
+cp /verif/evidence/$PROP.json /tmp/seed_$ID.evidence.bak 2>/dev/null
 ./check $PROP > /tmp/seed_$ID.check.log 2>&1; CRC=$?
 git -C /repo checkout -- .
+# the evidence file must describe the unchanged tree: restore it
+cp /tmp/seed_$ID.evidence.bak /verif/evidence/$PROP.json 2>/dev/null
 grep -E "^VIOLATION|^CHECKER|^UNDEC" /tmp/seed_$ID.check.log | head -8
 tail -1 /tmp/seed_$ID.check.log
 echo "check exit $CRC"
